@@ -95,7 +95,14 @@ class Duration(timedelta):
         )
 
         # Intuitive normalization
-        total = self.total_seconds() - (years * 365 + months * 30) * SECONDS_PER_DAY
+        # Built from the integer days/seconds/microseconds: subtracting the
+        # years and months from the float total_seconds() rounds twice and
+        # can lose a microsecond.
+        total = (
+            (timedelta.days.__get__(self) - (years * 365 + months * 30))
+            * SECONDS_PER_DAY
+            + timedelta.seconds.__get__(self)
+        ) + timedelta.microseconds.__get__(self) / US_PER_SECOND
         self._total = total
 
         m = 1
